@@ -179,10 +179,23 @@ impl<'a> std::ops::DerefMut for StableIovec<'a> {
 }
 
 /// Always copy when the source is at most this long.
+#[cfg(not(woodpile_verif_arena))]
 const SMALL_COPY: usize = 64;
 
 /// Copy when the source is at most this long and we'd extend the last IoSlice.
+#[cfg(not(woodpile_verif_arena))]
 const MAX_OPPORTUNISTIC_COPY: usize = 256;
+
+/// Verification hook: with `--cfg woodpile_verif_arena`, the copy
+/// thresholds come from `WOODPILE_VERIF_COPY_LIMITS="small,opportunistic"`
+/// at compile time (defaulting to the production values).
+#[cfg(woodpile_verif_arena)]
+const VERIF_COPY_LIMITS: (usize, usize) =
+    crate::verif_hooks::parse_pair(option_env!("WOODPILE_VERIF_COPY_LIMITS"), (64, 256));
+#[cfg(woodpile_verif_arena)]
+const SMALL_COPY: usize = VERIF_COPY_LIMITS.0;
+#[cfg(woodpile_verif_arena)]
+const MAX_OPPORTUNISTIC_COPY: usize = VERIF_COPY_LIMITS.1;
 
 #[must_use]
 #[inline(always)]
